@@ -32,6 +32,61 @@ def probe_ops(w):
     return r
 
 
+def concurrent(w, v, tier, seed):
+    """Beyond C15 (DESIGN.md 4.5): two cycles at the same time on one datastore directory.
+    TufStoreConc.tla is model-checked, every complete schedule TLC prints is (quick: a sample)
+    executed with two real processes stepped through the shim's gate, and results, final directory
+    and the follow-up cycles are compared with the model.  Nothing here can raise a VIOLATION:
+    concurrent cycles are outside the property; a disagreement with the model is DRIFT."""
+    import random
+    cfgc = make_cfg("MC_TufStoreConc.cfg", {}, os.path.join(w, "conc-check.cfg"))
+    mc = tlc("MC_TufStoreConc", cfgc, "c15-conc-check", workers=2, timeout=300)
+    if not mc.ok:
+        raise vlib.ToolError("TufStoreConc.tla: an invariant that should hold under every schedule fails:\n" + (mc.violation or "")[-2000:])
+    gen = tlc("MC_TufStoreConc", make_cfg("MC_TufStoreConc.cfg", {}, os.path.join(w, "conc-gen.cfg"), invariants=["Emit"]),
+              "c15-conc-gen", workers=2, timeout=300)
+    beh = gen.replays
+    lost = [b for b in beh if b["lost"]]
+    rnd = random.Random(seed)
+    if tier == "quick":
+        pick = rnd.sample(lost, min(25, len(lost))) + rnd.sample([b for b in beh if not b["lost"]], min(25, len(beh) - len(lost)))
+    else:
+        pick = beh
+    cases = [{"old": b["old"], "a": b["a"], "b": b["b"], "sched": b["sched"], "follow": sorted({f["v"] for f in b["follow"]}), "m": b} for b in pick]
+    cp = os.path.join(w, "conc-cases.ndjson")
+    write_ndjson(cp, cases)
+    out = os.path.join(w, "conc-results.ndjson")
+    vh(["c15conc", "--cases", cp, "--shim", SHIM, "--out", out], timeout=3000)
+    rows = read_ndjson(out)
+    agree = skipped = lost_seen = below = 0
+    for r in rows:
+        m = r["in"]["m"]
+        if r["tool"]:
+            skipped += 1
+            continue
+        obs = {"A": r["A"]["res"], "B": r["B"]["res"]}
+        fl = {f["v"]: f["r"] for f in r["follow"]}
+        exp_fl = {f["v"]: f["r"] for f in m["follow"]}
+        files = {k: r["files"][k] for k in ("ts", "sn", "tg")}
+        if obs == m["res"] and files == m["files"] and fl == exp_fl:
+            agree += 1
+        else:
+            v.note_drift(f"concurrent cycles, schedule {''.join(m['sched'])} (A served {m['a']}, B served {m['b']}): "
+                         f"model results/files/follow {m['res']}/{m['files']}/{exp_fl}, code {obs}/{files}/{fl}")
+        okv = [r[p]["ts"] for p in ("A", "B") if r[p]["res"] == "ok"]
+        if okv and min(files.values()) < max(okv):
+            lost_seen += 1
+        # the part of C15/C03 that survives concurrency, on what the code did
+        if min(files.values()) < r["in"]["old"] or any(f["r"] == "ok" and f["v"] < r["in"]["old"] for f in r["follow"]):
+            below += 1
+    return {"model_states": mc.distinct, "schedules_in_model": len(beh), "schedules_with_lost_update_in_model": len(lost),
+            "schedules_run_with_two_processes": len(rows) - skipped, "agree_with_model": agree, "skipped_gate_timeouts": skipped,
+            "runs_where_a_successful_cycles_version_was_overwritten_by_a_lower_one": lost_seen,
+            "runs_ending_below_what_was_trusted_before_both": below,
+            "invariants_checked": ["NeverTorn", "NeverBelowEarlier", "FollowNeverBelowEarlier", "SuccessNotOlder", "RefusedMeansOlder", "LoweredOnlyIfOverlapping"],
+            "note": "observation outside the property (cycles overlap in time): see DESIGN.md section 9"}, below, rows
+
+
 def run(tier, seed):
     ensure_shim()
     w = workdir("c15")
@@ -128,6 +183,9 @@ def run(tier, seed):
                 v.note_drift(f"fault {c['mode']}@{c['n']} follow {follow}: model files/result {b['files']}/{exp}, code {r['files']}/{res}")
     if model_violation and not v.violations:
         raise vlib.ToolError("TufStore.tla (with the create discipline observed in the code) violates C15 but no replay reproduces it:\n" + (mc.violation or "")[-2000:])
+    conc, below, crows = concurrent(w, v, tier, seed)
+    if below:
+        v.note_drift(f"concurrent cycles: {below} runs ended below the version an earlier, completed cycle had trusted (TufStoreConc.tla NeverBelowEarlier says this cannot happen)")
     samples = [{"fault": r["in"]["mode"], "at_call": r["in"]["n"], "follow": r["in"]["follow"], "child": r["child"]["res"],
                 "datastore": r["files"], "result": r["result"]} for r in rows[:: max(1, len(rows) // 5)][:5]]
     cov = {"evaluations": len(rows), "distinct_nontrivial": len(nontrivial),
@@ -136,7 +194,7 @@ def run(tier, seed):
            "traces_validated_against_impl": len(rows),
            "datastore_calls_per_cycle": ncalls, "create_discipline": "tmp+rename" if atomic == "TRUE" else "truncate+write",
            "call_sequence_matches_model": bool(seq_ok), "rename_visible_to_shim": visible_rename,
-           "model_disagreements": mism, "exhaustive": True}
+           "model_disagreements": mism, "exhaustive": True, "concurrent_cycles": conc}
     return v.finish("fault_enumeration", cov, [
         "TLC enumerates crash positions and failing calls of TufStore.tla; the LD_PRELOAD shim sees calls made through libc (open/write/close/unlink/rename); a rename issued as a raw system call (tempfile::persist) is bracketed by the visible calls around it",
         "process death (SIGKILL) and failing calls (ENOSPC/EIO) are injected; power loss / reordering of writes by the file system is out of scope"])
